@@ -56,11 +56,11 @@ Record runcfg := mkRun { r_cfg : config; r_layout : layout }.
 
 Definition decode_cfg (t : tree) (mask : list bool) : option runcfg :=
   match as_zlist t with
-  | Some [de; dm; mv; rc; sn; up; em; ub; page; maxp; tot; per; ret; sbo; nsc; imp; hk; nm; ni; nu] =>
+  | Some [de; dm; mv; rc; sn; up; em; ub; page; maxp; tot; per; ret; sbo; nsc; imp; hk; nm; ni; nu; vb] =>
     let b z := negb (z =? 0) in
     Some (mkRun
       (mkConfig (mkFlags (b de) (b dm) (b mv) (b rc) (b sn) (b up) (b em) (b ub))
-                page maxp tot per (b ret) (b sbo) nsc (b imp) (b hk) (b nm))
+                page maxp tot per vb (b ret) (b sbo) nsc (b imp) (b hk) (b nm))
       (mkLayout mask ni (b nu) (b em)))
   | _ => None
   end.
